@@ -163,7 +163,7 @@ if __name__ == '__main__':
     for i in r['accepted']:
         v = lean.get('%d CERT' % i, '?').split(' ')[0]
         certs[v] = certs.get(v, 0) + 1
-        if v not in ('OK', 'LOOK'):
+        if v not in ('OK', 'OKL', 'LOOK'):
             print('CERT', i, lean.get('%d CERT' % i), r['corpus'][i].origin)
             print(r['srcs'][i])
     print('certs', certs, 'wall %.1f' % r['wall'])
